@@ -784,6 +784,7 @@ class _Sim:
         # declaration order as the framework sees it: base-class robot annotations first
         from models.robot_model import declared_order
         self.order = declared_order(cfg)
+        self.ncb, self.cb_limit = 0, 10 ** 9
         self.threaded = False
         self.at_wait = None
         self.resumed = None
@@ -954,6 +955,11 @@ class _Sim:
             return 0
         do_raise = False
         self.cur_owner = owner
+        self.ncb += 1
+        if self.ncb > self.cb_limit:
+            # the robot program keeps invoking callbacks without ever reaching a loop wait: livelock
+            self.aborted = "hang"
+            self.emit()
         try:
             n = self.visits.get(site, 0) + 1
             self.visits[site] = n
@@ -1212,7 +1218,7 @@ def execute(plan, trace=False):
         exact = bool(cfg["dyadic"]) or prop not in INTEGRATION
         try:
             if sim.aborted == "hang":
-                raise Violation(prop, "model.hang", "the robot program kept looping after endCompetition()", sig=f"{prop}:model.hang")
+                raise Violation(prop, "model.hang", "the robot program kept looping after endCompetition(), or kept invoking callbacks without ever waiting for the next loop period", sig=f"{prop}:model.hang")
             if result_box.get("exc"):
                 raise Violation(prop, "model.exception", "unexpected exception left startCompetition(): " + result_box["exc"], sig=f"{prop}:model.exception")
             diff = compare(cfg, mlog, moutcome, ilog, ioutcome, exact)
@@ -1284,6 +1290,7 @@ def execute(plan, trace=False):
     _wdh = _WdCapture(level=_logging.DEBUG)
     _logging.getLogger("simple_watchdog").addHandler(_wdh)
     sim.emit = emit_and_exit
+    sim.cb_limit = 20 * len(mlog) + 2000
     sim.real_wait = hal.waitForNotifierAlarm
     hal.waitForNotifierAlarm = sim.wait_seam
     def lifetime():
